@@ -466,7 +466,17 @@ class C09(Prop):
             for what, edits in mg.version_string_sweep(a[1]):
                 cases.append({"kind": "explore", "asset": a[0], "fkind": "pe", "mutation": "version-string", "what": [what],
                               "edits": edits, "layout": None, "params": {"process_memory": False}, "rules": vrules})
-        n_explore += sum(1 for c in cases if c["mutation"] in ("dotnet-index", "macho-entry-sweep", "count-field", "version-string"))
+        # directed family: dex class_data_item lists (consecutive entries with extreme uleb128 index differences, flags,
+        # code offsets, counts), on a minimal synthetic dex and re-encoded into the real sample
+        drules = [{"tag": "r0", "imports": ["dex"], "cond": "dex.number_of_fields >= 0 or dex.number_of_methods >= 0"},
+                  {"tag": "r1", "imports": ["dex"], "cond": "for any m in dex.method : (m.method_idx_diff >= 0 and dex.has_method(m.name))"},
+                  {"tag": "r2", "imports": ["dex"], "cond": "for any f in dex.field : (f.field_idx_diff >= 0 and f.static >= 0)"}]
+        real = [a[1] for a in self.assets if a[2] == "dex"]
+        for what, data in mg.dex_class_data_family(real[0] if real else None):
+            cases.append({"kind": "explore", "base_hex": data.hex(), "fkind": "dex", "mutation": "dex-class-data", "what": [what],
+                          "edits": [], "layout": None, "params": {"process_memory": False}, "rules": drules})
+        n_explore += sum(1 for c in cases if c["mutation"] in ("dotnet-index", "macho-entry-sweep", "count-field", "version-string",
+                                                               "dex-class-data"))
         i = 0
         while len(cases) < n_explore:
             r = rng.fork("m%d" % i)
